@@ -327,7 +327,33 @@ def jvm_programs():
                         lines.append("c = object_file(file='Main.java', libs=%s)\ndefault(c)" % libs)
                     files = {k: v for k, v in JVM_FILES.items() if two or k != 'B.java'}
                     out.append(('\n'.join(lines) + '\n', files))
+    # a pre-built jar of the source tree (a library without a build step) on the classpath
+    for use in (['dep'], ['a', 'dep'], ['dep', 'a']):
+        for link in (False, True):
+            lines = ["project('j')", "a = library('a', files=['A.java'])",
+                     "dep = library('vendor/dep.jar', format='jvm', lang='java')",
+                     "c = object_file(file='Main.java', libs=[%s])" % ', '.join(use),
+                     "default(executable('prog', files=[c], entry_point='Main'))" if link else 'default(c)']
+            files = {k: v for k, v in JVM_FILES.items() if k != 'B.java'}
+            files['vendor/dep.jar'] = None
+            out.append(('\n'.join(lines) + '\n', files))
     return out
+
+
+def _write_jar(path):
+    import zipfile
+    os.makedirs(os.path.dirname(path), exist_ok=True)
+    with zipfile.ZipFile(path, 'w') as z:
+        z.writestr(zipfile.ZipInfo('META-INF/MANIFEST.MF', (2020, 1, 1, 0, 0, 0)), 'Manifest-Version: 1.0\r\n\r\n')
+
+
+def _jvm_modify(path):
+    if path.endswith('.jar'):
+        proj.tick()
+        os.utime(path)
+        proj.tick()
+    else:
+        proj.modify(path)
 
 
 def make_edges(pr):
@@ -384,7 +410,11 @@ def check_jvm(script, files, root, behavioural):
     n = 0
     prs = {}
     for backend in ('make', 'ninja'):
-        pr = proj.Proj(os.path.join(root, backend), backend, files, script)
+        pr = proj.Proj(os.path.join(root, backend), backend, {k: v for k, v in files.items() if v is not None},
+                       script)
+        for k, v in files.items():
+            if v is None:
+                _write_jar(os.path.join(pr.src, k))
         if backend == 'ninja':
             shutil.rmtree(pr.src)
             os.symlink(prs['make'].src, pr.src)
@@ -435,7 +465,7 @@ def check_jvm(script, files, root, behavioural):
         for b in prs:
             proj.restore(snaps[b], prs[b].bld)
         before = {b: _mtimes(prs[b].bld, products) for b in prs}
-        proj.modify(os.path.join(mk.src, f))
+        _jvm_modify(os.path.join(mk.src, f))
         for b, pr in prs.items():
             rc, out, _ = pr.run(['all'])
             n += 1
@@ -506,7 +536,7 @@ def run(ctx):
                       case=dict(k=k, index=i, config=cfgs[ci], script=progs[i].script()), observed=detail)
     # JVM programs (compile-time libraries)
     jprogs = jvm_programs()
-    jbeh = set(range(len(jprogs))) if ctx.thorough else {0, len(jprogs) - 2}
+    jbeh = set(range(len(jprogs))) if ctx.thorough else {0, 25, len(jprogs) - 1}
     jn = 0
     jseen = set()
     for i, (v, nb) in core.pmap(_jvm_shard, [(i, i in jbeh) for i in range(len(jprogs))]):
@@ -528,7 +558,8 @@ def run(ctx):
              'with a space x global options x CFLAGS/CPPFLAGS/LDFLAGS/LDLIBS), both backends from one script: target '
              'sets (make -p database vs manifest), per-step program/arguments/cwd/environment, re-executed steps '
              'after modifying each source, compile_commands.json entries vs the processes actually started. '
-             'distinct = (program, configuration) pairs. Plus %d JVM programs (1-2 library jars, optionally chained, '
+             'distinct = (program, configuration) pairs. Plus %d JVM programs (1-2 library jars, optionally chained, or a '
+             'pre-built jar of the source tree, '
              'consumed by an executable / library / object_file through libs= in every order) built with the real '
              'javac and jar: per product the real and the order-only prerequisites of Makefile and build.ninja are '
              'the same sets, and (%d of them here, all in the thorough tier) the products re-made after modifying '
